@@ -39,11 +39,29 @@ EPS = float(np.finfo(np.float64).eps)
 SCALES = [1.0, 1e-9, 1.0, 1e-12, 1.0, 1e6]
 
 
+# channel-scale flavour (float64, P >= 2): channel j is multiplied by CH_EXP[j % 2] = 2**7 or 2**-42
+# (standard deviations 5.6e14 apart, covariance eigenvalue ratio ~3e29: "Tesla next to arbitrary
+# units").  Powers of two keep all arithmetic exactly equivariant: Full' = D Full D, Diag' likewise,
+# shrinkage_diag' = D out D (its relation is equivariant under channel scaling); shrinkage_eye is
+# judged in raw units against Full'.  The precision clause is judged per entry relative to the
+# channel scales (equilibrated by the covariance's own diagonal).
+CH_EXP = (7, -42)
+
+
 def flavour(i):
     dt = DTYPES[i % 4]
+    if dt == 'int64' and (i // 4) % 2:
+        dt = 'int32'
     return {'dtype': dt, 'dofcont': ('list', 'array', 'tuple')[(i // 4) % 3],
             'labkind': ('int', 'str')[(i // 2) % 2], 'desccont': ('list', 'array')[(i // 3) % 2],
-            'scale': SCALES[(i // 4) % 6] if dt == 'float64' else 1.0}
+            'scale': SCALES[(i // 4) % 6] if dt == 'float64' else 1.0,
+            'chscale': bool(dt == 'float64' and (i // 4) % 6 == 2)}
+
+
+def channel_factors(P, fl):
+    if not fl.get('chscale') or P < 2:
+        return None
+    return np.array([2.0 ** CH_EXP[j % 2] for j in range(P)])
 
 
 def _api():
@@ -61,6 +79,9 @@ def build_input(vec, fl):
     c = float(fl.get('scale', 1.0))
     if c != 1.0:
         arrs = [a * c for a in arrs]
+    chf = channel_factors(vec['P'], fl)
+    if chf is not None:
+        arrs = [a * chf[None, :] for a in arrs]
     form = vec['form']
     if form == 1:
         data = arrs[0]
@@ -261,27 +282,16 @@ def check_vector(vec, idx):
     tol = 1e-6 if fl['dtype'] == 'float32' else 1e-10
     case = {'vector': vec, 'flavour': fl}
     covs, raw = {}, {}
-    if form in (4, 5) and fl['dtype'] == 'int64':
-        # Datasets with integer measurements: probe once; the in-place subtraction of the float
-        # means raises UFuncTypeError (not demanded by the property) -> counted, then float64
-        data, dof = build_input(vec, fl)
-        try:
-            call('unbalanced', 'cov', data, dof, 'full')
-        except Exception as e:  # noqa: BLE001
-            if type(e).__name__ != 'UFuncTypeError':
-                fd.v(f'C14/a/cov_from_unbalanced/{fc}/{dc}/raises/{type(e).__name__}',
-                     f'cov_from_unbalanced raises on an admissible input: {e}', case)
-            fd.unsup.append(('int-dtype-dataset', f'cov_from_unbalanced: {e}'))
-            fl = {**fl, 'dtype': 'float64'}
-            case = {'vector': vec, 'flavour': fl}
     for est in estimators_for(vec):
         for method in METHODS:
             cname, pname = f'cov_from_{est}', f'prec_from_{est}'
             data, dof = build_input(vec, fl)
             before = fingerprint((data, dof))
             fd.s('calls')
+            dtc = '/int-dtype' if fl['dtype'].startswith('int') else ''
             if form in (4, 5):
                 fd.s(f'dataset_calls_{est}')
+                fd.s(f'dataset_calls_{fl["dtype"]}')
                 if any(len(set(b['lab'])) == 1 for b in vec['blocks']):
                     fd.s(f'single_condition_dataset_calls_{est}')
                 if any(len(set(b['lab'])) == len(b['lab']) for b in vec['blocks']):
@@ -289,11 +299,8 @@ def check_vector(vec, idx):
             try:
                 res = call(est, 'cov', data, dof, method)
             except Exception as e:  # noqa: BLE001
-                if fl['dtype'] == 'int64' and form in (4, 5) and type(e).__name__ == 'UFuncTypeError':
-                    fd.unsup.append(('int-dtype-dataset', f'{cname}: {e}'))
-                    continue
-                fd.v(f'C14/a/{cname}/{fc}/{dc}/raises/{type(e).__name__}',
-                     f'{cname} raises on an admissible input: {e}', {**case, 'method': method})
+                fd.v(f'C14/a/{cname}/{fc}/{dc}/raises/{type(e).__name__}' + dtc,
+                     f'{cname} raises on an admissible input ({fl["dtype"]} data): {e}', {**case, 'method': method})
                 continue
             if fingerprint((data, dof)) != before:
                 fd.v(f'C14/f/{cname}/{fc}/input-modified', f'{cname} modified its input', {**case, 'method': method})
@@ -310,13 +317,22 @@ def check_vector(vec, idx):
                      f'{cname} does not return one {P}x{P} matrix per element: got {_describe(res)}',
                      {**case, 'method': method})
             else:
+                chf = channel_factors(P, fl)
+                dd = np.outer(chf, chf) if chf is not None else 1.0
                 if all(np.isfinite(np.asarray(m, float)).all() for m in mats):
-                    raw[(est, method)] = [np.asarray(m, np.float64) / c2 for m in mats]
+                    raw[(est, method)] = [np.asarray(m, np.float64) / c2 / dd for m in mats]
                 ok = True
                 for k in range(K):
-                    ok &= _check_matrix(fd, cname, method, np.asarray(mats[k], dtype=np.float64) / c2, exp[k],
+                    Mk, ex = np.asarray(mats[k], dtype=np.float64) / c2, exp[k]
+                    if chf is not None:
+                        fd.s('channel_scaled_matrices')
+                        if method == 'shrinkage_eye':      # not equivariant: raw units, Full' = D Full D
+                            ex = (ex[0] * dd, ex[1], ex[2])
+                        else:                              # equivariant: standardise exactly (powers of 2)
+                            Mk = Mk / dd
+                    ok &= _check_matrix(fd, cname, method, Mk, ex,
                                         vec['blocks'][k], tol, fc, dc, {**case, 'method': method, 'element': k},
-                                        sc='/scaled-data' if c2 != 1.0 else '')
+                                        sc='/scaled-data' if c2 != 1.0 else ('/channel-scaled-data' if chf is not None else ''))
                 if ok:
                     covs[(est, method)] = mats
             # ---- precision = inverse of the covariance returned for the same arguments
@@ -332,7 +348,8 @@ def check_vector(vec, idx):
             for k in range(K):
                 sc = max(1.0, float(np.abs(b[k]).max()))
                 if not np.abs(np.asarray(a[k], float) - np.asarray(b[k], float)).max() <= max(tol, 1e-9) * sc:
-                    fd.v('C14/d/measurements-vs-unbalanced/disagree' + ('/scaled-data' if fl.get('scale', 1.0) != 1.0 else ''),
+                    fd.v('C14/d/measurements-vs-unbalanced/disagree' + ('/scaled-data' if fl.get('scale', 1.0) != 1.0 else '')
+                         + ('/channel-scaled-data' if channel_factors(P, fl) is not None else ''),
                          'cov_from_measurements and cov_from_unbalanced differ on a balanced design',
                          {**case, 'method': method, 'element': k})
     return fd
@@ -416,12 +433,28 @@ def _check_prec(fd, est, method, vec, fl, mats, shape_bad, single, K, P, fc, dc,
     if mats is not None and not all(np.isfinite(np.asarray(m, float)).all() for m in mats):
         fd.s('prec_skipped_nonfinite_cov')
         return
-    conds = None
+    # per-entry RELATIVE oracle: equilibrate by the covariance's own diagonal, C = S^-1 M S^-1 with
+    # S = sqrt(diag M); then (S prec S) @ C = I must hold with a tolerance tied to cond(C), which does
+    # not depend on the units of the channels (raw cond(M) does: 1e29 for Tesla next to arbitrary units)
+    conds, sds, tols = None, None, None
     if mats is not None:
-        conds = [float(np.linalg.cond(np.asarray(m, np.float64))) for m in mats]
-        if any((not np.isfinite(c)) or c > 1e10 for c in conds):
-            fd.s('prec_skipped_singular')
-            return
+        conds, sds, tols = [], [], []
+        for m in mats:
+            m64 = np.asarray(m, np.float64)
+            dg = np.diag(m64)
+            if not (dg > 0).all():
+                fd.s('prec_skipped_singular')
+                return
+            sd = np.sqrt(dg)
+            cc = float(np.linalg.cond(m64 / np.outer(sd, sd)))
+            eps = float(np.finfo(m.dtype).eps) if m.dtype.kind == 'f' else EPS
+            tk = 1e-10 + 256 * eps * P * cc
+            if not np.isfinite(cc) or tk > 1e-2:
+                fd.s('prec_skipped_singular')
+                return
+            conds.append(cc)
+            sds.append(sd)
+            tols.append(tk)
     data, dof = build_input(vec, fl)
     before = fingerprint((data, dof))
     fd.s('calls')
@@ -442,13 +475,21 @@ def _check_prec(fd, est, method, vec, fl, mats, shape_bad, single, K, P, fc, dc,
         return
     for k in range(K):
         Mk = np.asarray(mats[k], np.float64)
-        eps = float(np.finfo(mats[k].dtype).eps) if mats[k].dtype.kind == 'f' else EPS
-        tolk = 1e-12 + 64 * eps * P * conds[k]
+        ss = np.outer(sds[k], sds[k])
+        tolk = tols[k]
+        chs = channel_factors(P, fl) is not None
         fd.s('prec_checked')
-        dev = float(np.abs(np.asarray(pm[k], np.float64) @ Mk - np.eye(P)).max())
+        if chs:
+            fd.s('prec_checked_channel_scaled')
+        if not np.isfinite(np.asarray(pm[k], np.float64)).all():
+            dev = float('inf')
+        else:
+            dev = float(np.abs((np.asarray(pm[k], np.float64) * ss) @ (Mk / ss) - np.eye(P)).max())
+        fd.stats['prec_max_dev_over_tol'] = max(fd.stats.get('prec_max_dev_over_tol', 0.0), dev / tolk)
         if not dev <= tolk:
-            fd.v(f'C14/g/{pname}/{method}/not-inverse',
-                 f'{pname} @ cov_from_{est} differs from I by {dev:.3g} (tolerance {tolk:.3g}, cond {conds[k]:.3g})',
+            fd.v(f'C14/g/{pname}/{method}/not-inverse' + ('/channel-scaled-data' if chs else ''),
+                 f'{pname} @ cov_from_{est} (equilibrated by the channel scales) differs from I by {dev:.3g} '
+                 f'(tolerance {tolk:.3g}, equilibrated cond {conds[k]:.3g})',
                  {**case, 'element': k, 'prec': pm[k], 'cov': Mk})
 
 
@@ -520,7 +561,8 @@ def record_trace(vec, est, idx, corrupt=False):
     Returns (trace or None, notes).  No expected value is computed here: intensities are recovered
     from the implementation's OWN 'full' output; Trace_NoiseCov recomputes the definition."""
     fl = flavour(idx)
-    fl['dtype'] = 'float64' if vec['form'] in (4, 5) or idx % 3 else 'int64'
+    fl['dtype'] = 'float64' if idx % 3 else ('int64' if idx % 2 else 'int32')
+    fl['chscale'] = False
     fl['scale'] = SCALES[idx % 6] if fl['dtype'] == 'float64' else 1.0
     P, K = vec['P'], len(vec['blocks'])
     single = vec['form'] in (1, 4)
@@ -532,7 +574,7 @@ def record_trace(vec, est, idx, corrupt=False):
         try:
             res = call(est, 'cov', data, dof, method)
         except Exception as e:  # noqa: BLE001
-            notes.append(('raises', method, f'{type(e).__name__}: {e}'))
+            notes.append(('raises', method, f'{type(e).__name__}: {e}', fl['dtype']))
             continue
         if fingerprint((data, dof)) != before:
             notes.append(('modified', method, 'cov'))
